@@ -636,8 +636,17 @@ pub fn gen_script(r: &mut Rng, flavor: &str) -> String {
                     "o-".into()
                 } else if w(85, 90) {
                     "f:in".into()
-                } else if w(90, 95) {
+                } else if w(90, 94) {
                     format!("f:bf,{}>S{}{}", hex(&r.bytes(bf_bytes)), if r.coin() { 'u' } else { '-' }, if r.coin() { 'i' } else { 'n' })
+                } else if w(94, 98) {
+                    // the peer serves us a (one-block) piece and then asks for that very piece: what we downloaded on this
+                    // connection is no licence to upload it here - the manager decides (it says no, or lets the task load it)
+                    let i = r.below(np as u64) as usize;
+                    evs.push(format!("f:un>Q{},100,good", i));
+                    evs.push(format!("f:pb,{},100,0,100>Ig", i));
+                    last_served = Some((i, 100));
+                    let rep = if r.coin() { "Ig".to_string() } else { format!("L{},100,present", i) };
+                    format!("f:rq,{},0,16>{}", i, rep)
                 } else {
                     "t60".into()
                 }
